@@ -30,19 +30,19 @@ def catalogue():
         if f.endswith('.py') and f != '__init__.py':
             m = importlib.import_module('schemas.' + f[:-3])
             for s in getattr(m, 'SPECS', []):
-                if '__hole__(1)' in s['text'] and not s.get('no_fresh'):
+                if '__hole__(1,' in s['text'] and not s.get('no_fresh'):
                     specs.append(s)
     return specs
 
 
 def compose(x, y):
-    inner = re.sub(r'<\?python __hole__\(\d+\) \?>', 'y', y['text'])
+    inner = re.sub(k3.HOLE_RE, 'y', y['text'])
     # strip the surrounding 'A' ... 'B' text of the inner schema
     inner = re.sub(r'^A', '', inner)
     inner = re.sub(r'B$', '', inner)
     body = '<?python %s(1) ?>%s<?python %s(1) ?>' % (BEGIN, inner, END)
-    text = x['text'].replace('<?python __hole__(1) ?>', body)
-    text = re.sub(r'<\?python __hole__\(\d+\) \?>', 'z', text)
+    text = x['text'].replace(k3.hole(1), body)
+    text = re.sub(k3.HOLE_RE, 'z', text)
     return text
 
 
@@ -184,7 +184,7 @@ def unit(spec):
 def replay_pair(x, y, res):
     from . import replay as rp
     from .vc import Contract
-    inner = re.sub(r'<\?python __hole__\(\d+\) \?>', 'y', y['text'])
+    inner = re.sub(k3.HOLE_RE, 'y', y['text'])
     inner = re.sub(r'^A', '', inner)
     inner = re.sub(r'B$', '', inner)
     c = Contract('k3::%s' % x['id'], params={}, source=('def schema():\n    pass\n', 'schema'),
